@@ -97,9 +97,9 @@ def sync_term(r):
                                                cbool(r["lowdeleted"]), cbool(r["dbequal"]), max(r.get("penown", 0), 0), max(r.get("penpeer", 0), 0))
     truth = "(%s, %s, %d, %s, %s, %s)" % (cbool(r["honest"]), cbool(r["better"]), r["forkh"], clist(r["peerchain"]),
                                           cbool(not r["spec"].get("sender")), cbool(r.get("genisvalidator", True)))
-    return "(%d, %d, %d, (%d)%%Z, %s, %s, %d, %s, %s, %d, %s, %s, %s)" % (
+    return "(%d, %d, %d, (%d)%%Z, %s, %s, %d, %s, %s, %d, %s, %s, %s, %s)" % (
         r["ownh"], r["blockh"], r.get("nvals") or r["spec"]["n"], r["slotgap"], clist(r["before"]), pairs(r.get("tempbefore") or []), r["finalized"],
-        common, clist(r["delivered"]), e, pairs(r["links"]), truth, obs)
+        common, clist(r["delivered"]), e, pairs(r["links"]), pairs(r.get("finat") or []), truth, obs)
 
 
 def add_failure(ck, kind, code, what_spec, what_model, case):
@@ -166,7 +166,14 @@ def evaluate(ck, recs):
                            sp["corrupt"], sp["corruptkind"] if sp["corrupt"] >= 0 else "", sp["errafter"], sp.get("stall", ""),
                            sp.get("own2", 0), sp.get("corrupt2", -1), sp.get("errafter2", -1), bool(r.get("tempbefore")), bool(sp.get("sender")),
                            sp.get("sendershare", 0), sp.get("forkmode", ""), bool(sp.get("recent")), r["better"], r["ownh"] > r["blockh"], bool(sp.get("nonvalidator")), sp.get("batch", 0), sp.get("slowfirst", 0)))
-            if code != 0:
+            if code == 2 and r["banned"] and r["kind"] == "fast" and r["common"] in r["before"] and r.get("finafter", 0) > r["before"].index(r["common"]):
+                # finalized blocks are irreversible: the protocol itself cannot restore the original blocks here
+                f = dict(kind="input", key="c19:sync:restore-finalized", case=r, spec_violated=True,
+                         what="fast sync: valid downloaded blocks finalized height %d above the common block, then an invalid one: "
+                              "the original blocks cannot be restored (peer banned: %s) on %s" % (r["finafter"], r["banned"], json.dumps(r["spec"])))
+                f["theorem_or_correspondence"] = "Corr.C19.check_sync"
+                ck.failures.append(f)
+            elif code != 0:
                 add_failure(ck, "sync", code,
                             "sync run: node did not end on the honest better peer's chain / failed fast sync did not restore the "
                             "original blocks byte-identically and ban / a finalized block was touched",
@@ -212,8 +219,34 @@ def corpus_records(ck):
     return inp
 
 
+def pace_obligation(ck):
+    """Quick-tier guard of the pacing fix: the downloader's limiter must stay strictly below the p2p limit of 100 received messages
+    per 10 s interval (at most 9 requests per second) and must not accumulate slack (the dynamic scenario needs ~20 s: thorough)."""
+    import re
+    from core import REPO
+    ck.obligations += 1
+    try:
+        src = open(os.path.join(REPO, "pkg/consensus/sync/download.go")).read()
+    except OSError as e:
+        ck.fail_obligation("download-pace", "cannot read download.go: %s" % e)
+        return
+    calls = re.findall(r"ratelimit\.New\(([^)]*)\)", src)
+    ok = len(calls) == 1
+    if ok:
+        args = [a.strip() for a in calls[0].split(",")]
+        ok = args[0].isdigit() and 0 < int(args[0]) <= 9 and "ratelimit.WithoutSlack" in args[1:] and \
+            not any(a.startswith("ratelimit.WithSlack") or a.startswith("ratelimit.Per") for a in args[1:])
+    if ok:
+        ck.discharged += 1
+    else:
+        ck.fail_obligation("download-pace", "pkg/consensus/sync/download.go: the block downloader's limiter is not `ratelimit.New(n <= 9, "
+                           "ratelimit.WithoutSlack)` (found %s): an honest sync can exceed the p2p rate limit of 100 received messages "
+                           "per 10 s and gets the peers penalised (finding c19:sync:spec:penalty)" % calls)
+
+
 def run(ck):
     ck.prove(extra_targets=["Corr/C19.vo"])
+    pace_obligation(ck)
     binp = ck.go_build("c19")
     if not binp:
         return
